@@ -739,12 +739,14 @@ func (a *simApp) From() []byte     { return a.from }
 type replica struct {
 	vals *types.ValidatorSet // what gemmill/state.State.Validators is; the plugin holds &vals
 	op   *plugin.AdminOp
+	own  int
 	sw   *p2p.Switch
 	rl   *refuse_list.RefuseList
 }
 
-func newReplica(vs *types.ValidatorSet) *replica {
-	r := &replica{vals: vs}
+// newReplica makes the node that owns node key K<own> (replicas are different nodes).
+func newReplica(vs *types.ValidatorSet, own int) *replica {
+	r := &replica{vals: vs, own: own}
 	r.sw = p2p.NewSwitch(viper.New())
 	r.rl = refuse_list.NewRefuseList("memdb", "")
 	r.boot()
@@ -754,7 +756,7 @@ func newReplica(vs *types.ValidatorSet) *replica {
 // boot is what Angine.InitPlugins does for "adminOp".
 func (r *replica) boot() {
 	r.op = &plugin.AdminOp{}
-	r.op.Init(&plugin.InitParams{Switch: r.sw, PrivKey: keys[0].priv, RefuseList: r.rl, Validators: &r.vals})
+	r.op.Init(&plugin.InitParams{Switch: r.sw, PrivKey: keys[r.own].priv, RefuseList: r.rl, Validators: &r.vals})
 }
 
 func initialSet(vals []ValSpec) *types.ValidatorSet {
@@ -879,8 +881,8 @@ func runAdminCase(c AdminCase, x *h.Ctx) {
 		return
 	}
 	m := newModel(c.Vals)
-	A := newReplica(initialSet(c.Vals))
-	B := newReplica(initialSet(c.Vals))
+	A := newReplica(initialSet(c.Vals), 0)
+	B := newReplica(initialSet(c.Vals), 1)
 	defer A.rl.Stop()
 	defer B.rl.Stop()
 	if compareSet(x, "genesis", A.vals, m) {
